@@ -136,7 +136,7 @@ def session_family(ctx, extra_args=None, runs=None):
     return viols, cov, files
 
 
-@pipeline("C01", "C02", "C14")
+@pipeline("C01", "C02")
 def p_session(ctx):
     viols, cov, _ = session_family(ctx)
     finish(ctx, viols, cov, assumptions=[
@@ -643,3 +643,23 @@ def p_c12(ctx):
 def p_c13(ctx):
     viols, cov = session_plus_expr(ctx, [])
     finish(ctx, viols, cov, assumptions=["value tokens are compared as sets of (type, exact extent) outside the open regions of ExprRules!OpenTok / OpenIn / OpenKeyItems"])
+
+
+@pipeline("C14")
+def p_c14(ctx):
+    viols, cov, _ = session_family(ctx)
+    cases, n = tlc_cases(ctx, "MC_Outline.tla", "MC_Outline_quick.cfg" if ctx.quick else "MC_Outline_full.cfg", "mcoutline", timeout=3000)
+    pre = os.path.join(ctx.work, "ol")
+    p = ctx.run_hx(["outline", "-cases", cases, "-out", pre, "-layouts", "2" if ctx.quick else "4"])
+    info = json.loads(p.stdout.strip().splitlines()[-1])
+    files = sorted(glob.glob(pre + ".*.ndjson"))
+    bad, events = ctx.validate_traces("TraceOutline.tla", "TraceOutline.cfg", files)
+    for b in bad:
+        e = json.loads(open(b["file"]).read().splitlines()[b["l"] - 1])
+        viols.append({"what": b["what"], "replay": {"pipeline": "outline", "case": {k: e[k] for k in e if k in ("mode", "doc", "query", "paths")}, "layout": e["layout"], "syms": e["syms"]}})
+    cov["evaluations"] += info["events"]
+    cov["distinct_nontrivial"] += n
+    cov["traces_validated_against_impl"] += len(files)
+    cov["trace_events"] += events
+    cov["rule"] += "; plus every document of MC_Outline (items with literal / list / object / reference values, labelled and nested blocks) and every workspace (3 paths x all subsets of unreadable paths x 7 queries)"
+    finish(ctx, viols, cov, assumptions=["native syntax without schema; the JSON outline is covered by C19"])
